@@ -242,7 +242,7 @@ func lexQuoted(src string, i int, escapes bool) (string, int, error) {
 			case '\\', '\'', '"':
 				sb.WriteByte(src[j])
 			default:
-				return "", 0, errf(codeUnsupported, "pgfake: escape sequence \\%c in E'' string not implemented", src[j])
+				return "", 0, unsupported("escape sequence \\%c in E'' string not implemented", src[j])
 			}
 			j++
 			continue
